@@ -918,6 +918,7 @@ void var_opt_sketch<T, A>::decrease_k_by_1() {
     // exact mode, but we have some data
     --k_;
     if (h_ > k_) {
+      filled_data_ = true; // all k_ + 1 slots hold items now, as in update_warmup_phase()
       transition_from_warmup();
     }
   } else if ((h_ > 0) && (r_ > 0)) {
@@ -930,7 +931,18 @@ void var_opt_sketch<T, A>::decrease_k_by_1() {
     const uint32_t old_final_r_idx = (h_ + 1 + r_) - 1;
     if (old_final_r_idx != k_) throw std::logic_error("gadget in invalid state");
     
-    swap_values(old_final_r_idx, old_gap_idx);
+    // move the rightmost R item into the gap (which holds a constructed item only if filled_data_);
+    // its old slot falls off the end of the array when k_ is decremented, so the item left there is destroyed
+    if (filled_data_) {
+      data_[old_gap_idx] = std::move(data_[old_final_r_idx]);
+    } else {
+      new (&data_[old_gap_idx]) T(std::move(data_[old_final_r_idx]));
+    }
+    data_[old_final_r_idx].~T();
+    weights_[old_gap_idx] = weights_[old_final_r_idx];
+    if (marks_ != nullptr) {
+      marks_[old_gap_idx] = marks_[old_final_r_idx];
+    }
     filled_data_ = true; // we just filled the gap, and no need to check previous state
 
     // now we pull an item out of H; any item is ok, but if we grab the rightmost and then
@@ -957,6 +969,7 @@ void var_opt_sketch<T, A>::decrease_k_by_1() {
     const uint32_t r_idx_to_delete = 1 + next_int(r_); // 1 for the gap
     const uint32_t rightmost_r_idx = (1 + r_) - 1;
     swap_values(r_idx_to_delete, rightmost_r_idx);
+    data_[rightmost_r_idx].~T(); // this slot falls off the end of the array when k_ is decremented
     weights_[rightmost_r_idx] = -1.0;
 
     --k_;
